@@ -61,8 +61,8 @@ Page ==
      IN /\ cur.pag => Len(ents) + Len(Ev.prefixes) <= cur.max          \* never more than the page size
         /\ IF cur.exact
              THEN IsPrefix(d2, full)                                   \* ascending, none skipped or repeated
-             ELSE /\ \A i \in 1..Len(d2) : d2[i] \in ToSet(full)        \* only real entries
-                  /\ \A i, j \in 1..Len(d2) : i # j => d2[i] # d2[j]    \* each once
+             ELSE /\ ToSet(d2) \subseteq ToSet(full)                    \* only real entries
+                  /\ Cardinality(ToSet(d2)) = Len(d2)                   \* each once
                   /\ KeysNonDecreasing(d2)                              \* grouped by key, keys ascending
         /\ Cardinality(ps) = Len(Ev.prefixes)                           \* no prefix twice in a page
         /\ \A q \in ps : q \in pres /\ q \notin dPres                   \* each common prefix once
